@@ -3,16 +3,17 @@
 
    What is proved for all inputs (any number of classes, units, edges): the index bookkeeping of cache_func, the
    alignment of the grouped edge lists (with its precondition, D46), both realisations of an edge projection (matrix
-   product / indexed assignment) equal to the edge sum, the branch condition, the combination of several source vector
-   nodes and the default rule (C04_partial, per target unit, no guard since fix D57), the scalar collapse, and the
-   END-TO-END composition C04_sound: for every well-formed circuit whose class pairs each use one source variable,
-   whenever Impl does not raise, `impl vec c st` IS the vector field of the edge list (`spec c st`), vectorized or not;
-   hence C04_vec_equals_nonvec.
-   What is refuted (faithful model, replayed on the real code: corpus/C04): the full statement, by the source variable of
-   the first group (D3); loud classes D21, D32.  D14 is repaired (D57): `_before_D57` notes.
-   What is NOT proved: C04_no_err_statement (the guards no_constant_rhs and no_scalar_fanout exclude the two loud
-   classes).  C04_guarded_from_no_err shows that this is the only gap of C04_guarded_statement; the correspondence run
-   checks it on every generated circuit inside the guards. *)
+   product / indexed assignment) equal to the edge sum, the branch condition, the combination of several inputs and the
+   default rule (C04_partial, no guard since fix D57), the scalar collapse, and the END-TO-END composition:
+     C04_sound            wf c -> impl vec c st = Some r -> r = spec c st      (both modes; no guard since fix D59)
+     C04_full_up_to_err   wf c -> impl vec c st = None \/ impl vec c st = Some (spec c st)
+     C04_vec_equals_nonvec
+   i.e. the full statement holds up to the two loud classes: the only way Impl differs from Spec is by raising.
+   Loud classes (Impl = Err, the real code raises): D21 (C04_err_constant_rhs), D32 (C04_err_scalar_fanout); they refute
+   the literal full statement (C04_full_refuted).  D14 and D3 are repaired (D57, D59): `_before_D57/_before_D59` notes.
+   What is NOT proved: C04_no_err_statement — that the boolean guards no_constant_rhs and no_scalar_fanout characterise
+   the loud classes (guard true -> Impl does not raise).  C04_guarded_from_no_err shows that this is the only gap of
+   C04_guarded_statement; the correspondence run checks it on every generated circuit inside the guards. *)
 From Coq Require Import List ZArith QArith Qcanon Bool Arith.
 From PV Require Import Vectorize VectorizeProofs.
 Import ListNotations.
@@ -124,15 +125,18 @@ Definition C04_guarded_statement : Prop := guarded_statement.
 Definition C04_no_err_statement : Prop := no_err_statement.        (* the remaining gap: stated, not proved *)
 
 (* end-to-end: whenever the modelled compilation does not raise, it computes the vector field of the edge list *)
-Theorem C04_sound : forall vec c st r, wf c = true -> single_source_var c = true ->
-  impl vec c st = Some r -> r = spec c st.
+Theorem C04_sound : forall vec c st r, wf c = true -> impl vec c st = Some r -> r = spec c st.
 Proof. exact impl_sound. Qed.
 Print Assumptions C04_sound.
 
-Theorem C04_vec_equals_nonvec : forall c st r1 r2, wf c = true -> single_source_var c = true ->
+Theorem C04_vec_equals_nonvec : forall c st r1 r2, wf c = true ->
   impl true c st = Some r1 -> impl false c st = Some r2 -> r1 = r2.
 Proof. exact vec_equals_nonvec. Qed.
 Print Assumptions C04_vec_equals_nonvec.
+
+Theorem C04_full_up_to_err : forall vec c st, wf c = true -> impl vec c st = None \/ impl vec c st = Some (spec c st).
+Proof. exact full_up_to_err. Qed.
+Print Assumptions C04_full_up_to_err.
 
 Theorem C04_guarded_from_no_err : C04_no_err_statement -> C04_guarded_statement.
 Proof. exact guarded_from_no_err. Qed.
@@ -152,12 +156,13 @@ Theorem C04_refuted_default_before_D57 :
 Proof. exact refuted_default_before_D57. Qed.
 Print Assumptions C04_refuted_default_before_D57.
 
-Theorem C04_refuted_source_var :
+Theorem C04_refuted_source_var_before_D59 :
   wf w_d03 = true /\ no_constant_rhs w_d03 = true /\ no_scalar_fanout w_d03 = true /\
   single_source_var w_d03 = false /\
-  impl false w_d03 st_d03 = Some (spec w_d03 st_d03) /\ impl true w_d03 st_d03 <> Some (spec w_d03 st_d03).
-Proof. exact refuted_source_var. Qed.
-Print Assumptions C04_refuted_source_var.
+  impl_before_D59 false w_d03 st_d03 = Some (spec w_d03 st_d03) /\ impl_before_D59 true w_d03 st_d03 <> Some (spec w_d03 st_d03) /\
+  guard w_d03 = true /\ impl true w_d03 st_d03 = Some (spec w_d03 st_d03).
+Proof. exact refuted_source_var_before_D59. Qed.
+Print Assumptions C04_refuted_source_var_before_D59.
 
 Theorem C04_err_constant_rhs :
   wf w_d21 = true /\ no_constant_rhs w_d21 = false /\ impl true w_d21 [q 1; q 2] = None /\
